@@ -80,6 +80,10 @@ META = {
                 tech="stateless deviation-bounded exploration of request sequences x WSGI app behaviours x partial sends; wire bytes judged by an independent HTTP parser",
                 text="1-3 requests per connection (HTTP/1.0/1.1, keep-alive/close, pipelined or sequential), scripted WSGI apps (status, Content-Length exact/absent/short, empty pieces); the received byte stream must parse into exactly the expected responses in order, each self-delimiting while the connection stays open, closed iff not persistent.",
                 note="An unframed response to an HTTP/1.0 keep-alive request can only be delimited by closing (RFC 7230): expected as non-persistent."),
+    "C19": dict(cat="model_checking", eng="E1 full tree over FakeNet", ref="3 (C19)",
+                tech="complete enumeration of scripted server behaviours per queued request (immediate, delayed, fragmented, redirecting, closing) against the real http.Client",
+                text="1-2/3 queued requests, plain and TLS-flavoured client, reconnectable or not; every assignment of 6-7 server behaviours and 4 redirect codes; no request bytes while an earlier response is unfinished; at most one response entry per request in order with tag and redirect history; https->http refused without contacting the plain listener; exactly one entry per request when the connection stays usable.",
+                note="Liveness is not demanded through a connection the server closed unless the client is reconnectable on its original connector."),
     "C26": dict(cat="exploration", eng="E3 full enumeration", ref="3 (C26)",
                 tech="exhaustive enumeration of small input domains against arithmetic written from the statement",
                 text="Every integer below 2^18/2^22 x lengths 1..6 plus power-of-64 boundaries; every Base64 string up to length 3/4; every byte string up to 2/3 bytes x admissible sextet counts.",
